@@ -16,7 +16,7 @@
       Props.v evaluated on this file abstraction and selection) *)
 From Coq Require Import Ascii String List Bool ZArith NArith.
 From PTBase Require Import Exn PyStr PyNum PyVal Wire.
-From P Require Import ListingHistory HistoryFuel HistorySpec HistoryRows.
+From P Require Import ListingHistory HistoryFuel HistorySpec HistoryRows LineCells HistoryValues.
 Import ListNotations.
 Open Scope char_scope.
 
@@ -115,8 +115,30 @@ Definition run_rows (s : str) : str :=
   concat (map show_key (rows ds)) ++ ["|"] ++
   concat (map (fun n => show_nat n ++ [","]) (skiplines ds)).
 
+(** third case kind:  vals TAB ef,ncols,aut TAB v,v,..., TAB lines TAB items
+      aut = -1 (TOUGH2 family) or the value start of AUTOUGH2 rows; v = row_format['values'];
+      lines = the text from the table's header on, separated by the character 031;
+      items terminated by ';', each  lineindex,col,rev
+    result: per item, terminated by ';', the value history() computes there (F neg mant e10 | INF neg | NAN | RAISE e) *)
+Definition us : ascii := ascii_of_nat 31.
+Definition run_vals (fs vs ls its : str) : str :=
+  match split_f "," fs with
+  | [ef; nc; au] =>
+      let f := {| f_ef := nat_of_str ef; f_ncols := nat_of_str nc; f_vals := parse_ints vs;
+                  f_aut := match au with "-" :: _ => None | _ => Some (z_of_str au) end |} in
+      let lines := split_f us ls in
+      concat (map (fun it => match split_f "," it with
+                             | [li; co; rv] =>
+                                 show_res (match read_cell f lines (nat_of_str li) (nat_of_str co) with
+                                           | Ok v => Ok (signed (str_eqb rv ["1"]) v)
+                                           | Raise e => Raise e end) ++ [";"]
+                             | _ => s2l "BADITEM;" end) (split_term ";" its))
+  | _ => s2l "BADFMT"
+  end.
+
 Definition run_case (line : str) : str :=
   match split_f tab line with
+  | [k; fs; vs; ls; its] => if str_eqb k (s2l "vals") then run_vals fs vs ls its else s2l "BADCASE"
   | [k; s] => if str_eqb k (s2l "rows") then run_rows s else s2l "BADCASE"
   | k :: sm :: sts :: sets :: metas :: st :: fl :: sels =>
       if str_eqb k (s2l "hist") then
